@@ -47,7 +47,7 @@ structure Token where
 /-- what one call of the scanner's main loop can emit -/
 inductive Ev where
   | tok (t : Token) (off : Nat) (file : String)          -- `file` = lexer's filename when returned
-  | err (msg : String) (line col : Nat) (off : Nat)      -- error callback invocation
+  | err (msg : String) (line col : Nat) (off : Nat) (file : String)  -- error callback invocation
   | eof (file : String)
   | dir (line : Nat) (next : Nat)                         -- ghost: a `#line` directive was obeyed; text offset `next` is on line `line`
   | stuck                                                 -- a zero-length token: the Python loop would spin
@@ -124,7 +124,7 @@ def matchToken (cfg : LexCfg) (isType : String → Bool) (st : LexState) : List 
   | c :: _ =>
   match matchBest cfg st.rest with
   | .none =>
-    ([.err ("Illegal character " ++ pyReprChar c) st.lineno (st.col st.pos) st.pos], 1)
+    ([.err ("Illegal character " ++ pyReprChar c) st.lineno (st.col st.pos) st.pos st.file], 1)
   | .fixed f =>
     ([.tok ⟨f.name, String.ofList f.lit, st.lineno, st.col st.pos⟩ st.pos st.file], f.lit.length)
   | .regex r n =>
@@ -134,7 +134,7 @@ def matchToken (cfg : LexCfg) (isType : String → Bool) (st : LexState) : List 
     | .error =>
       let msg := if r.name == "BAD_CHAR_CONST" then "Invalid char constant " ++ value
                  else r.msg.getD ""
-      ([.err msg st.lineno (st.col st.pos) st.pos], max 1 n)
+      ([.err msg st.lineno (st.col st.pos) st.pos st.file], max 1 n)
     | .ident =>
       let k := lookupKw cfg value
       let k := if k == "ID" && isType value then "TYPEID" else k
@@ -219,10 +219,10 @@ def stepLineDirective (cfg : LexCfg) (st : LexState) (tl : List Char) : List Ev 
     { st with rest := tl.drop (ll + 1), pos := p + ll + 1, lineStart := p + ll + 1 }
   match handlePpLine cfg line with
   | .ok n f => ([.dir n (p + ll + 1)], { after with lineno := n, file := f.getD st.file })
-  | .missing => ([.err "line number missing in #line" st.lineno (st.col (p + ll)) (p + ll)], after)
-  | .failAt msg off => ([.err msg st.lineno (st.col (p + off)) (p + off)], after)
+  | .missing => ([.err "line number missing in #line" st.lineno (st.col (p + ll)) (p + ll) st.file], after)
+  | .failAt msg off => ([.err msg st.lineno (st.col (p + off)) (p + off) st.file], after)
   | .badInt =>
-    ([.err "invalid #line directive" st.lineno (st.col (p + ll)) (p + ll)],
+    ([.err "invalid #line directive" st.lineno (st.col (p + ll)) (p + ll) st.file],
      { st with rest := tl, pos := p })
 
 /-- `#pragma` branch: `self._pos += 1; self._handle_pppragma()` -/
@@ -232,7 +232,7 @@ def stepPragma (st : LexState) (tl : List Char) : List Ev × LexState :=
   let p1 := st.pos + 1 + w
   if r1.isEmpty then ([], { st with rest := [], pos := p1 })
   else if !startsWith r1 "pragma".toList then
-    ([.err "invalid #pragma directive" st.lineno (st.col p1) p1],
+    ([.err "invalid #pragma directive" st.lineno (st.col p1) p1 st.file],
      { st with rest := r1.drop 1, pos := p1 + 1 })
   else
     let r2 := r1.drop 6
